@@ -495,6 +495,17 @@ def index_ties(ctx):
                 lambda kw=kw: dims.get_coord_index(SArray(1, sys_, {"step": sys_["step"]}), "d0", sys_["v"], **kw),
                 Vs, ret, f"{A}indexKernel lo0 hi0 v {_bool(raise_)}", lambda r: f".ok {_plan(r)}",
                 tactic=f"unfold {name}\n  se_c16", meta={"op": "coord_index_dim"})
+    # … and on an axis whose coordinate also carries `start` / `stop` attributes (what extend_dim / set_dim_attrs
+    # leave there, possibly stale): arbitrary numbers a0, a1 - the range of the lookup is that of the coordinates
+    Va = V + ["step", "a0", "a1"]
+    sya = {x: ZSym.var(x) for x in Va}
+    for tag, kw, raise_ in modes[:2]:
+        name = f"ext_index_kernel_rangeattrs_{tag}"
+        sym_tie(ctx, name,
+                lambda kw=kw: dims.get_coord_index(
+                    SArray(1, sya, {"step": sya["step"], "start": sya["a0"], "stop": sya["a1"]}), "d0", sya["v"], **kw),
+                Va, ret, f"{A}indexKernel lo0 hi0 v {_bool(raise_)}", lambda r: f".ok {_plan(r)}",
+                tactic=f"unfold {name}\n  se_c16", meta={"op": "coord_index_derived"})
     # the same lookup on every axis of a 2-D and a 3-D array: whatever the array is asked for (range, size,
     # slice bound) has to be that of the queried axis
     for n in (2, 3):
